@@ -1,0 +1,15 @@
+//go:build verif
+
+package config
+
+// Verification hooks (build tag "verif" only) for the correspondence harness in /verif.
+
+// VerifResetRestartNeeded clears the process-wide restart-required flag so
+// that independent traces can be run in one process.
+func VerifResetRestartNeeded() { restartNeeded.Store(false) }
+
+// VerifConfigPath returns the path persist() writes to.
+func VerifConfigPath() string { return configPath.Path }
+
+// VerifVerify runs the configuration's own verification.
+func VerifVerify(c *Config) error { return c.verify() }
